@@ -90,7 +90,7 @@ include hnb hsz hm hrf hA hD
 
 set_option linter.unusedVariables false in
 set_option maxHeartbeats 1000000 in
-theorem dfs_split (st sz : Nat) (ls : List (Nat × Nat)) (s : LS) (c : Nat) (cs : List Nat) (p : Nat) (ps : List Nat)
+theorem dfs_split_v (st sz : Nat) (ls : List (Nat × Nat)) (s : LS) (c : Nat) (cs : List Nat) (p : Nat) (ps : List Nat)
     (ce : Nat) (bo : Disjoint.DS) (w : Bool) (op' : OP) (k : Nat) (hc : Core n s)
     (ht : TopOK s.op (k + 1) s.path s.choices ((st, sz) :: ls))
     (hsk : s.skipDeage = false) (hage : s.op.age + 1 = s.path.length) (hch : s.choices = c :: cs)
@@ -98,12 +98,12 @@ theorem dfs_split (st sz : Nat) (ls : List (Nat × Nat)) (s : LS) (c : Nat) (cs 
     (hh : (if (decide (s.count > 0) && !hasPrefix s.flPath.toList ps.reverse && hasPrefix s.bestPath.toList ps.reverse) = true
       then h2Best s.op s.bestOrbits (c - 1) ce else Outcome.ok (false, s.bestOrbits)) = .ok (false, bo))
     (hs : splitBin nb s.currentBest s.firstLeaf s.op (c - 1) = .ok (w, op'))
-    (hJ : CertN n m nb ((st, sz) :: ls) s) (h : DN n nb rf r ((st, sz) :: ls) s) :
-    (w = false → DS n nb rf r ((st, sz) :: ls)
+    (hJ : CertN n m nb ((st, sz) :: ls) s) (gh : Gh) (h : DNv n nb rf r gh ((st, sz) :: ls) s) :
+    (w = false → ∃ t v, DSv n nb rf r gh t v ((st, sz) :: ls)
       { s with choices := (c - 1) :: cs, bestOrbits := bo, op := op', path := k :: ps }) ∧
-    (w = true → DA n nb rf r ((st, sz) :: ls)
+    (w = true → DAv n nb rf r gh ((st, sz) :: ls)
       { s with choices := (c - 1) :: cs, bestOrbits := bo, op := op', path := k :: ps }) := by
-  obtain ⟨gh, hw, hG, hcov, haux⟩ := h
+  obtain ⟨hw, hG, hcov, haux⟩ := h
   obtain ⟨m1, m2, m3, m4, m5⟩ := top_member hc ht hage hch hpth hget hw
   obtain ⟨hi, hns, tc⟩ := top_split_facts hc ht hage hch hpth hw
   obtain ⟨v, hv, hCk, hvl, q1, q2⟩ := walk_split st sz ls s c cs p ps ce bo w op' k hc ht hage hch hpth hget hs hw
@@ -126,7 +126,7 @@ theorem dfs_split (st sz : Nat) (ls : List (Nat × Nat)) (s : LS) (c : Nat) (cs 
   have htail := haux.tail
   constructor
   · intro hwf
-    refine ⟨gh, st, v, q1 hwf, hG', ?_, ?_, ?_⟩
+    refine ⟨st, v, q1 hwf, hG', ?_, ?_, ?_⟩
     · have h1 := cov_split_ok st sz ls s c cs p ps bo op' k hch hpth m3 hcov
       exact CovFrames.congr (s := { s with choices := (c - 1) :: cs, bestOrbits := bo, op := op', path := k :: ps })
         (s' := { s with choices := (c - 1) :: cs, bestOrbits := bo, op := op', path := k :: ps })
@@ -159,7 +159,7 @@ theorem dfs_split (st sz : Nat) (ls : List (Nat × Nat)) (s : LS) (c : Nat) (cs 
       have h0 := hJ.2.2.zero (by omega)
       have := splitBin_not_worse h0 hc.part hc.age hi hns hs
       cases this
-    refine ⟨gh, q2 rfl, hG', ?_, ?_, ?_⟩
+    refine ⟨q2 rfl, hG', ?_, ?_, ?_⟩
     · exact cov_split_worse_step hnb hsz hm hrf hA hD st sz ls s c cs p ps ce bo op' k hc ht hage hch hpth hget hs hw hJ
         hcov
     · have h1 : FrameAux n nb rf r gh s gh.vs true (k :: ps) ((c - 1) :: cs) ((st, sz) :: ls) :=
@@ -171,26 +171,47 @@ theorem dfs_split (st sz : Nat) (ls : List (Nat × Nat)) (s : LS) (c : Nat) (cs 
       cases hp
 
 set_option linter.unusedVariables false in
+theorem dfs_split (st sz : Nat) (ls : List (Nat × Nat)) (s : LS) (c : Nat) (cs : List Nat) (p : Nat) (ps : List Nat)
+    (ce : Nat) (bo : Disjoint.DS) (w : Bool) (op' : OP) (k : Nat) (hc : Core n s)
+    (ht : TopOK s.op (k + 1) s.path s.choices ((st, sz) :: ls))
+    (hsk : s.skipDeage = false) (hage : s.op.age + 1 = s.path.length) (hch : s.choices = c :: cs)
+    (hpth : s.path = p :: ps) (hget : s.op.order.get (c - 1) = .ok ce)
+    (hh : (if (decide (s.count > 0) && !hasPrefix s.flPath.toList ps.reverse && hasPrefix s.bestPath.toList ps.reverse) = true
+      then h2Best s.op s.bestOrbits (c - 1) ce else Outcome.ok (false, s.bestOrbits)) = .ok (false, bo))
+    (hs : splitBin nb s.currentBest s.firstLeaf s.op (c - 1) = .ok (w, op'))
+    (hJ : CertN n m nb ((st, sz) :: ls) s) (h : DN n nb rf r ((st, sz) :: ls) s) :
+    (w = false → DS n nb rf r ((st, sz) :: ls)
+      { s with choices := (c - 1) :: cs, bestOrbits := bo, op := op', path := k :: ps }) ∧
+    (w = true → DA n nb rf r ((st, sz) :: ls)
+      { s with choices := (c - 1) :: cs, bestOrbits := bo, op := op', path := k :: ps }) := by
+  obtain ⟨gh, h⟩ := h
+  obtain ⟨a, b⟩ := dfs_split_v hnb hsz hm hrf hA hD st sz ls s c cs p ps ce bo w op' k hc ht hsk hage hch hpth hget hh hs hJ
+    gh h
+  refine ⟨fun hw => ?_, fun hw => ⟨gh, b hw⟩⟩
+  obtain ⟨t, v, q⟩ := a hw
+  exact ⟨gh, t, v, q⟩
+
+set_option linter.unusedVariables false in
 set_option maxHeartbeats 1000000 in
-theorem dfs_refine (lv : List (Nat × Nat)) (s : LS) (w : Bool) (op' : OP) (sc' sc2 : Scratch) (hc : Core n s)
+theorem dfs_refine_v (lv : List (Nat × Nat)) (s : LS) (w : Bool) (op' : OP) (sc' sc2 : Scratch) (hc : Core n s)
     (hl : LevelsOK s.op s.path s.choices lv) (hage : s.op.age = s.path.length) (hsk : s.skipDeage = false)
-    (htl : s.sc.timesSeen.len = n) (hJ : CertN n m nb lv s) (h : DS n nb rf r lv s)
+    (htl : s.sc.timesSeen.len = n) (hJ : CertN n m nb lv s) (gh : Gh) (t v : Nat) (h : DSv n nb rf r gh t v lv s)
     (hr : refine nb s.currentBest s.firstLeaf {} s.op s.sc = .ok (w, op', sc')) :
-    DM n nb rf r lv w { s with op := op', sc := sc2 } := by
-  obtain ⟨gh, t, v, hw, hG, hcov, haux, hoff⟩ := h
+    (w = true → DAv n nb rf r gh lv { s with op := op', sc := sc2 }) ∧
+    (w = false → DNodev n nb rf r { gh with vs := gh.vs ++ [v] } lv { s with op := op', sc := sc2 }) := by
+  obtain ⟨hw, hG, hcov, haux, hoff⟩ := h
   obtain ⟨q1, q2⟩ := walk_refine hnb hrf lv s w op' sc' hc htl hw hr sc2
-  unfold DM
   cases w with
   | false =>
-    rw [if_neg (by simp)]
-    refine ⟨{ gh with vs := gh.vs ++ [v] }, q2 rfl, ⟨hG.first, hG.best, hG.bgsAut, hG.ngens0, hG.bestOrb, hG.bpLen, hG.fpLen⟩, ?_, ?_, hoff⟩
+    refine ⟨fun hx => (by cases hx), fun _ => ?_⟩
+    refine ⟨q2 rfl, ⟨hG.first, hG.best, hG.bgsAut, hG.ngens0, hG.bestOrb, hG.bpLen, hG.fpLen⟩, ?_, ?_, hoff⟩
     · exact CovFrames.congr (s := s) (s' := { s with op := op', sc := sc2 }) rfl (fun _ => rfl) rfl false _ _ _
         (fun _ _ => rfl) hcov
     · exact FrameAux.congr_ghvs _ false _ _ _
         (FrameAux.congr (s := s) (s' := { s with op := op', sc := sc2 }) rfl rfl rfl rfl false _ _ _
           (fun _ _ => rfl) haux)
   | true =>
-    rw [if_pos rfl]
+    refine ⟨fun _ => ?_, fun hx => (by cases hx)⟩
     have hcnt : 0 < s.count := by
       by_contra hn
       have h0 := hJ.2.2.zero (by omega)
@@ -239,7 +260,7 @@ theorem dfs_refine (lv : List (Nat × Nat)) (s : LS) (w : Bool) (op' : OP) (sc' 
       have hcomp' := hcomp
       rw [hvl, et] at hcomp'
       exact hcomp'
-    refine ⟨gh, q1 rfl, ⟨hG.first, hG.best, hG.bgsAut, hG.ngens0, hG.bestOrb, hG.bpLen, hG.fpLen⟩, ?_, ?_, ?_⟩
+    refine ⟨q1 rfl, ⟨hG.first, hG.best, hG.bgsAut, hG.ngens0, hG.bestOrb, hG.bpLen, hG.fpLen⟩, ?_, ?_, ?_⟩
     · exact covFrames_eq hpth hch hcov'
     · apply frameAux_eq hpth hch
       have h3 : FrameAux n nb rf r gh s gh.vs true (p :: ps) (c :: cs) ((st, sz) :: ls) :=
@@ -251,6 +272,19 @@ theorem dfs_refine (lv : List (Nat × Nat)) (s : LS) (w : Bool) (op' : OP) (sc' 
       have : s.path = [] := hp
       rw [hpth] at this
       cases this
+
+set_option linter.unusedVariables false in
+theorem dfs_refine (lv : List (Nat × Nat)) (s : LS) (w : Bool) (op' : OP) (sc' sc2 : Scratch) (hc : Core n s)
+    (hl : LevelsOK s.op s.path s.choices lv) (hage : s.op.age = s.path.length) (hsk : s.skipDeage = false)
+    (htl : s.sc.timesSeen.len = n) (hJ : CertN n m nb lv s) (h : DS n nb rf r lv s)
+    (hr : refine nb s.currentBest s.firstLeaf {} s.op s.sc = .ok (w, op', sc')) :
+    DM n nb rf r lv w { s with op := op', sc := sc2 } := by
+  obtain ⟨gh, t, v, h⟩ := h
+  obtain ⟨a, b⟩ := dfs_refine_v hnb hsz hm hrf hA hD lv s w op' sc' sc2 hc hl hage hsk htl hJ gh t v h hr
+  unfold DM
+  cases w with
+  | false => rw [if_neg (by simp)]; exact ⟨_, b rfl⟩
+  | true => rw [if_pos rfl]; exact ⟨gh, a rfl⟩
 
 end
 end CanonF
